@@ -271,6 +271,10 @@ func Uneval(props bool, thorough bool) *Set {
 			`{"prefixItems":[{"prefixItems":[true,true]}],"unevaluatedItems":false}`,
 			`{"items":{"prefixItems":[true]},"unevaluatedItems":false}`,
 			`{"contains":{"contains":{"const":1}},"unevaluatedItems":false}`,
+			`{"allOf":[{"contains":{"type":"integer"}},{"contains":{"type":"string"}}],"unevaluatedItems":false}`,
+			`{"anyOf":[{"contains":{"const":1}},{"contains":{"const":"x"}}],"allOf":[{"contains":{"type":"string"},"minContains":0}],"unevaluatedItems":false}`,
+			`{"contains":{"const":1},"minContains":1,"unevaluatedItems":{"type":"string"}}`,
+			`{"allOf":[{"contains":{"const":"x"},"minContains":2},{"prefixItems":[true]}],"unevaluatedItems":{"type":"integer"}}`,
 			`{"prefixItems":[true],"contains":{"const":"x"},"unevaluatedItems":false}`,
 			`{"prefixItems":[{"unevaluatedItems":false}],"unevaluatedItems":false}`,
 			`{"anyOf":[{"prefixItems":[{"items":true}]},{"contains":{"const":"x"}}],"unevaluatedItems":false}`,
@@ -326,5 +330,23 @@ func UnevalArrays() []string {
 		}
 	}
 	out = append(out, `[1,"x",1,"x"]`, `[[1]]`, `[[1],1]`, `[[1,"x"],"x"]`, `[1,[1]]`, `[[1,"x"],[1],1]`)
+	// long arrays (beyond one machine word of item indexes): integers first / strings first / mixed tail
+	long := func(n int, f func(i int) string) string {
+		parts := make([]string, n)
+		for i := range parts {
+			parts[i] = f(i)
+		}
+		return "[" + strings.Join(parts, ",") + "]"
+	}
+	pick := func(b bool) string {
+		if b {
+			return "1"
+		}
+		return `"x"`
+	}
+	out = append(out,
+		long(65, func(i int) string { return pick(i == 0) }), long(65, func(i int) string { return pick(i != 64) }),
+		long(130, func(i int) string { return pick(i < 70) }), long(130, func(i int) string { return pick(i >= 64 && i%2 == 0) }),
+		long(200, func(i int) string { return pick(i == 0 || i == 199) }))
 	return out
 }
